@@ -162,7 +162,7 @@ def _fields(line):
     return (m.group(1), m.group(2).upper(), m.group(3))
 
 
-def assemble(lines, timeout=5, hooks=False):
+def assemble(lines, timeout=4, hooks=False):
     """Assemble `lines` (list of '\\n'-terminated strings) in this process.  Returns the raw observation:
     outcome in ok|parse|translation|internal|timeout, per-statement listing address and bytes, image, symbol table,
     origin, name, and for diagnostics the statement they name."""
@@ -174,9 +174,8 @@ def assemble(lines, timeout=5, hooks=False):
     old = signal.signal(signal.SIGALRM, _alarm)
     signal.alarm(timeout)
     try:
-        if hooks:
-            from cocoasm import _verif
-            _verif.reset()
+        from cocoasm import _verif
+        _verif.reset()
         p = Program()
         p.process(lines)
         rec["nstmts"] = len(p.statements)
@@ -245,7 +244,7 @@ def assemble(lines, timeout=5, hooks=False):
     if hooks:
         try:
             from cocoasm import _verif
-            rec["hooks"] = _verif.drain()
+            rec["hooks"] = _verif.drain()[:400]          # a run that was cut off may have logged millions of events
         except Exception:
             rec["hooks"] = []
     rec["input_intact"] = (list(lines) == given)
@@ -268,8 +267,6 @@ def trace_of(tid, prog, lines, rec):
     outcome = rec["outcome"]
     if outcome == "ok" and rec["nstmts"] != n:
         outcome = "stmtcount"
-    if outcome == "ok" and rec["adapter"]:
-        outcome = "adapter"
     diag_k = 0
     if rec["diag_fields"]:
         for k, l in enumerate(lines):
